@@ -3,7 +3,9 @@
 //! Supports both gRPC and HTTP endpoints for OTLP metrics ingestion.
 
 use crate::ingester::Ingester;
-use crate::schema::{METRIC_NAME_FIELD, TIMESTAMP_FIELD, VALUE_F64_FIELD};
+use crate::schema::{
+    is_fixed_column_name, METRIC_NAME_FIELD, TIMESTAMP_FIELD, VALUE_F64_FIELD,
+};
 use crate::Result;
 
 use arrow_array::{ArrayRef, Float64Array, RecordBatch, StringArray, TimestampNanosecondArray};
@@ -257,6 +259,14 @@ pub fn data_points_to_arrow(points: Vec<MetricDataPoint>) -> Result<RecordBatch>
         for key in point.labels.keys() {
             label_keys.insert(key.clone());
         }
+    }
+
+    // An attribute named like a fixed column would become a second column of that name
+    if let Some(key) = label_keys.iter().find(|key| is_fixed_column_name(key)) {
+        return Err(crate::Error::InvalidSchema(format!(
+            "Attribute name '{}' is reserved for a metric column",
+            key
+        )));
     }
 
     let timestamps: Vec<i64> = points.iter().map(|p| p.timestamp_nanos).collect();
